@@ -111,6 +111,21 @@ fn vf_lowercase_tail(s: &mut String, from: usize)
         forall|k: int| 0 <= k <= old(s)@.len() ==> blen(#[trigger] final(s)@.take(k)) == blen(old(s)@.take(k)),
 { unimplemented!() }
 
+#[verifier::external_body]
+fn vf_is_ascii(s: &str) -> (r: bool) ensures r == ascii_text(s@) { s.is_ascii() }
+// R6: `s[from..].make_ascii_lowercase()` where the text before `from` is `head` and the text after it is `tail`: ASCII letters of the
+// tail are lower-cased in place
+#[verifier::external_body]
+fn vf_lowercase_from(s: &mut String, from: usize, head: Ghost<Seq<char>>, tail: Ghost<Seq<char>>)
+    requires old(s)@ == head@ + tail@, from == blen(head@),
+    ensures final(s)@ == head@ + ascii_lower(tail@),
+{ unimplemented!() }
+// T: idna::domain_to_ascii (errors become ParseError::IdnaError through `?`)
+#[verifier::external_body]
+fn vf_idna(s: &str) -> (r: ParseResult<String>)
+    ensures match r { Ok(h) => idna_ascii(s@) == Some(h@), Err(_) => idna_ascii(s@) is None }
+{ unimplemented!() }
+
 //@EXTRACT src/url_parser/parser.rs :: struct Hostname
 //@ PUB
 //@ PUBFIELDS
@@ -124,8 +139,16 @@ pub open spec fn wf(h: Hostname) -> bool {
         && h.scheme_end <= h.host_start <= h.host_end
 }
 pub open spec fn sbytes(s: String) -> Seq<u8> { vstd::utf8::encode_utf8(s@) }
-// what parse_host writes for the host part of `input` (its normal form: lower case / punycode; units c12_userinfo, C12.host.*)
-pub uninterp spec fn host_written(input: Seq<char>, special: bool) -> Seq<char>;
+// the host text parse_host cuts out of `input` (up to the first terminator, tab / newline dropped: unit c12_userinfo, C12.host.*)
+pub uninterp spec fn host_text(input: Seq<char>, special: bool) -> Seq<char>;
+// "the host component of the normalised URL (IDN hosts in punycode)": hosts are case-insensitive, the normalised URL carries them
+// in lower case; a non-ASCII host goes through the IDNA mapping (which lower-cases as well)
+pub open spec fn ascii_text(t: Seq<char>) -> bool { forall|i: int| 0 <= i < t.len() ==> (#[trigger] t[i] as u32) < 128 }
+pub open spec fn lower_char(c: char) -> char { if 'A' <= c && c <= 'Z' { ((c as u8) + 32) as char } else { c } }
+pub open spec fn ascii_lower(t: Seq<char>) -> Seq<char> { t.map_values(|c: char| lower_char(c)) }
+pub uninterp spec fn idna_ascii(t: Seq<char>) -> Option<Seq<char>>;   // idna::domain_to_ascii
+pub open spec fn host_form(t: Seq<char>) -> Option<Seq<char>> { if ascii_text(t) { Some(ascii_lower(t)) } else { idna_ascii(t) } }
+pub open spec fn host_written(input: Seq<char>, special: bool) -> Seq<char> { host_form(host_text(input, special))->Some_0 }
 pub open spec fn special(t: SchemeType) -> bool { !(t is NotSpecial) }
 
 proof fn lemma_offset_slices(t: Seq<char>, a: int, b: int)
@@ -232,6 +255,56 @@ impl Parser {
     fn parse_userinfo<'i>(&mut self, input: Input<'i>, scheme_type: SchemeType) -> (r: ParseResult<(u32, Input<'i>)>)
         ensures r is Ok ==> is_prefix(old(self).serialization@, final(self).serialization@)
     { unimplemented!() }
+
+    // R7: the tail of parse_host - the host text is written in its normal form and the buffer length reported
+    fn vf_write_host<'i>(&mut self, host_str: &str, remaining: Input<'i>) -> (r: ParseResult<(usize, Input<'i>)>)
+        ensures
+            r is Ok ==> host_form(host_str@) is Some && final(self).serialization@ == old(self).serialization@ + host_form(host_str@)->Some_0, // OBL C12.host.written_in_normal_form
+            r is Ok ==> r->Ok_0.0 == blen(final(self).serialization@) && r->Ok_0.1.v@ == remaining.v@, // OBL C12.host.end_is_buffer_length
+            r is Err ==> host_form(host_str@) is None,
+    {
+        let ghost s0 = self.serialization@;
+//@EXTRACT src/url_parser/parser.rs :: impl Parser :: fn parse_host
+//@ BODYONLY
+//@ SAFETY C12.host.write.safety
+//@ FROM
+        if host_str.is_ascii() {
+//@ ENDFROM
+//@ TO
+        Ok((host_end, remaining))
+//@ ENDTO
+//@ SUBST R6
+    host_str.is_ascii()
+//@ WITH
+    vf_is_ascii(host_str)
+//@ ENDSUBST
+//@ SUBST R6*
+    self.serialization.len()
+//@ WITH
+    vf_len(&self.serialization)
+//@ ENDSUBST
+//@ SUBST R6
+    self.serialization.push_str(host_str);
+//@ WITH
+    vf_push_str(&mut self.serialization, host_str);
+//@ ENDSUBST
+//@ SUBST R6
+    self.serialization[host_start..].make_ascii_lowercase();
+//@ WITH
+    vf_lowercase_from(&mut self.serialization, host_start, Ghost(s0), Ghost(host_str@));
+//@ ENDSUBST
+//@ SUBST R6
+    idna::domain_to_ascii(host_str)?
+//@ WITH
+    vf_idna(host_str)?
+//@ ENDSUBST
+//@ SUBST R6
+    write!(&mut self.serialization, "{}", encoded).unwrap();
+//@ WITH
+    vf_push_str(&mut self.serialization, encoded.as_str());
+//@ ENDSUBST
+//@END
+    }
     #[verifier::external_body]
     pub fn parse_host<'i>(&mut self, input: Input<'i>, scheme_type: SchemeType) -> (r: ParseResult<(usize, Input<'i>)>)
         ensures r is Ok ==> final(self).serialization@ == old(self).serialization@ + host_written(input.v@, special(scheme_type)) && r->Ok_0.0 == blen(final(self).serialization@)
